@@ -299,6 +299,25 @@ pub fn run(ctx: &Ctx) {
         });
         ctx.space("field sweep: every value of every 8-bit and 16-bit field, walking bits of 24/32/48-bit and fixed fields, mid-range string / tail / label lengths and list sizes", total.load(std::sync::atomic::Ordering::Relaxed), "complete");
     }
+    {
+        let pairs = gen::size_pair_records();
+        let chunks: Vec<&[RefRR]> = pairs.chunks(128).collect();
+        par_shards(ctx, &chunks, |rs, t: &mut Tally| {
+            for r in rs.iter() {
+                if let RefRData::Typed { code, vals } = &r.rdata {
+                    t.evals += 1;
+                    t.transitions += 4;
+                    t.nontrivial += 1;
+                    let f = check_values(*code, vals);
+                    if !f.is_empty() {
+                        t.outcome("disagree");
+                        ctx.violations(f);
+                    }
+                }
+            }
+        });
+        ctx.space("size pairs: for every schema, every pair of variable-size fields over a 15-step size ladder each", pairs.len() as u64, "complete");
+    }
     // rejection families
     let mut t = Tally::default();
     let mut n = 0u64;
@@ -381,10 +400,148 @@ pub fn run(ctx: &Ctx) {
     ctx.merge(t);
     ctx.space("rejection families: LOC version 1..=255; SVCB+HTTPS key sequences {0,1,2}^<=3; NSEC windows {0,1,2,255}^<=3; every inner length one past the RDATA end (each with and without a following record)", n, "complete");
     ctx.sample(json!({"kind": "reject", "code": 47, "rdata": "00000140000001ff", "rule": "nsec-order"}));
+    // typed SVCB / HTTPS setters in every order
+    {
+        let mut seqs: Vec<Vec<u8>> = Vec::new();
+        let mut b: Vec<u8> = Vec::new();
+        crate::engine::for_each_string_upto(&[0, 1, 2, 3, 4, 5, 6], ctx.tier.pick(4, 5), &mut b, &mut |x| seqs.push(x.to_vec()));
+        let chunks: Vec<&[Vec<u8>]> = seqs.chunks(256).collect();
+        par_shards(ctx, &chunks, |ss, t: &mut Tally| {
+            for s in ss.iter() {
+                for variant in 0..3usize {
+                    for https in [false, true] {
+                        t.evals += 1;
+                        if !s.is_empty() {
+                            t.nontrivial += 1;
+                        }
+                        let f = check_svcb_builders(s, variant, https);
+                        if !f.is_empty() {
+                            t.outcome("disagree");
+                            ctx.violations(f);
+                        }
+                    }
+                }
+            }
+        });
+        ctx.space(&format!("SVCB/HTTPS typed setters: every sequence of <= {} calls over {{mandatory, alpn, no-default-alpn, port, ipv4hint, ipv6hint, arbitrary key}} (repeats replace) x 3 value variants x {{SVCB, HTTPS}}; RDATA compared with the RFC 9460 encoding and parsed back", ctx.tier.pick(4, 5)), seqs.len() as u64 * 6, "complete");
+        ctx.sample(json!({"kind": "svcb-builders", "seq": [3, 1, 0], "variant": 1, "https": true}));
+    }
+}
+
+/// SVCB / HTTPS built through the typed setters (mandatory, alpn, no-default-alpn, port, ipv4hint,
+/// ipv6hint, arbitrary key) called in the given order; the RDATA written must be the RFC 9460
+/// encoding: priority, target in full, parameters in increasing key order, each value in its
+/// presentation-independent wire form. A setter called twice replaces the earlier value.
+pub fn check_svcb_builders(seq: &[u8], variant: usize, https: bool) -> Vec<Finding> {
+    use simple_dns::rdata::{RData, HTTPS, SVCB};
+    use simple_dns::{CharacterString, Name, ResourceRecord, CLASS};
+    let case = json!({"kind": "svcb-builders", "seq": seq, "variant": variant, "https": https});
+    let mand: [&[u16]; 3] = [&[1], &[1, 3], &[1, 3, 4, 6]];
+    let alpn: [&[&str]; 3] = [&["h2"], &["h2", "h3"], &["http/1.1", "h2", "x"]];
+    let ports = [0u16, 443, 0xfffe];
+    let v4: [&[u32]; 3] = [&[0xc0000201], &[0xc0000201, 0x0a000001], &[1, 2, 3]];
+    let v6: [&[u128]; 3] = [&[1], &[0x2001_0db8_0000_0000_0000_0000_0000_0001, 0xfe80 << 112], &[u128::MAX]];
+    let custom: [(u16, &[u8]); 3] = [(7, b"/dns-query{?dns}"), (65280, b""), (5, &[0, 1, 2])];
+    let mut expect: std::collections::BTreeMap<u16, Vec<u8>> = std::collections::BTreeMap::new();
+    let r = guarded(|| -> Result<Vec<u8>, String> {
+        let mut s = SVCB::new(1 + variant as u16, Name::new_unchecked("svc.example"));
+        for (step, id) in seq.iter().enumerate() {
+            let v = (variant + step) % 3;
+            match id {
+                0 => s.set_mandatory(mand[v].iter().copied()).map_err(|e| format!("{:?}", e))?,
+                1 => s.set_alpn(alpn[v].iter().map(|a| CharacterString::new(a.as_bytes()).unwrap())).map_err(|e| format!("{:?}", e))?,
+                2 => s.set_no_default_alpn(),
+                3 => s.set_port(ports[v]),
+                4 => s.set_ipv4hint(v4[v].iter().copied()).map_err(|e| format!("{:?}", e))?,
+                5 => s.set_ipv6hint(v6[v].iter().copied()).map_err(|e| format!("{:?}", e))?,
+                _ => s.set_param(custom[v].0, custom[v].1).map_err(|e| format!("{:?}", e))?,
+            }
+        }
+        let rdata = if https { RData::HTTPS(HTTPS(s)) } else { RData::SVCB(s) };
+        let mut p = Packet::new_reply(1);
+        p.answers.push(ResourceRecord::new(Name::new_unchecked("r.example"), CLASS::IN, 9, rdata));
+        p.build_bytes_vec().map_err(|e| format!("{:?}", e))
+    });
+    for (step, id) in seq.iter().enumerate() {
+        let v = (variant + step) % 3;
+        match id {
+            0 => {
+                expect.insert(0, mand[v].iter().flat_map(|k| k.to_be_bytes()).collect());
+            }
+            1 => {
+                let mut e = Vec::new();
+                for a in alpn[v] {
+                    e.push(a.len() as u8);
+                    e.extend_from_slice(a.as_bytes());
+                }
+                expect.insert(1, e);
+            }
+            2 => {
+                expect.insert(2, vec![]);
+            }
+            3 => {
+                expect.insert(3, ports[v].to_be_bytes().to_vec());
+            }
+            4 => {
+                expect.insert(4, v4[v].iter().flat_map(|k| k.to_be_bytes()).collect());
+            }
+            5 => {
+                expect.insert(6, v6[v].iter().flat_map(|k| k.to_be_bytes()).collect());
+            }
+            _ => {
+                expect.insert(custom[v].0, custom[v].1.to_vec());
+            }
+        }
+    }
+    let mut want: Vec<u8> = (1 + variant as u16).to_be_bytes().to_vec();
+    want.extend_from_slice(b"\x03svc\x07example\x00");
+    for (k, v) in &expect {
+        want.extend_from_slice(&k.to_be_bytes());
+        want.extend_from_slice(&(v.len() as u16).to_be_bytes());
+        want.extend_from_slice(v);
+    }
+    let code = if https { 65 } else { 64 };
+    match r {
+        Err(pn) => vec![finding(format!("C10|svcb-builders|{}", pn.sig()), format!("{:?}", pn), case)],
+        Ok(Err(e)) => vec![finding("C10|svcb-builders|error", format!("setters {:?}: {}", seq, e), case)],
+        Ok(Ok(bytes)) => match walk(&bytes) {
+            Err(e) => vec![finding("C10|svcb-builders|unwalkable", format!("{:?}", e), case)],
+            Ok(w) => match w.records.first() {
+                None => vec![finding("C10|svcb-builders|no-record", "no record written".to_string(), case)],
+                Some(r0) => {
+                    let got = &bytes[r0.rdata_start..r0.rdata_end()];
+                    let mut out = Vec::new();
+                    if r0.rtype != code {
+                        out.push(finding("C10|svcb-builders|type-code", format!("written under type {}", r0.rtype), case.clone()));
+                    }
+                    if got != &want[..] {
+                        out.push(finding("C10|svcb-builders|rdata", format!("setters {:?} (variant {}): RDATA {} expected {}", seq, variant, hex(got), hex(&want)), case.clone()));
+                    }
+                    // and what was built parses back to the same parameters
+                    match guarded(|| Packet::parse(&bytes).map(|p| observe(&p))) {
+                        Ok(Ok(o)) => {
+                            let exp_params: Vec<(u16, B)> = expect.iter().map(|(k, v)| (*k, B(v.clone()))).collect();
+                            match o.answers.first().map(|r| &r.rdata) {
+                                Some(RefRData::Typed { vals, .. }) if vals.get(2) == Some(&Val::Params(exp_params.clone())) => {}
+                                other => out.push(finding("C10|svcb-builders|reparse", format!("parsed back as {:?}, expected params {:?}", other, exp_params), case.clone())),
+                            }
+                        }
+                        Ok(Err(e)) => out.push(finding("C10|svcb-builders|reparse-error", format!("{:?}", e), case.clone())),
+                        Err(pn) => out.push(finding(format!("C10|svcb-builders|reparse|{}", pn.sig()), format!("{:?}", pn), case.clone())),
+                    }
+                    out
+                }
+            },
+        },
+    }
 }
 
 pub fn replay(case: &Value) -> Vec<Finding> {
     match case["kind"].as_str().unwrap_or("") {
+        "svcb-builders" => {
+            let seq: Vec<u8> = case["seq"].as_array().map(|a| a.iter().filter_map(|x| x.as_u64().map(|v| v as u8)).collect()).unwrap_or_default();
+            check_svcb_builders(&seq, case["variant"].as_u64().unwrap_or(0) as usize, case["https"].as_bool().unwrap_or(false))
+        }
         "values" => {
             let vals: Vec<Val> = serde_json::from_value(case["vals"].clone()).unwrap_or_default();
             check_values(case["code"].as_u64().unwrap_or(0) as u16, &vals)
